@@ -443,6 +443,8 @@ def registry_invariants(s: Dict[str, Any]) -> List[str]:
         if r not in s["roots"] or objs[r - 1]["cls"] not in ("Module", "Package"):
             bad.append("ReachableFromRoot")
             break
+    if any(objs[o - 1]["par"] and objs[o - 1]["par"] not in registered for _, o in allm):
+        bad.append("ParentRegistered")
     for k, o in allm:
         ob = objs[o - 1]
         p = ob["par"]
